@@ -374,7 +374,38 @@ def vkFloat (prev : ValSem F) (vk : ValueKind) (s : S F) : Option F :=
     if intValued cx sel then (prev.int sel s).bind fun i => sonFloat cx prev (selectIndexed entries dflt i) s
     else .none
 
-/-- R4. One address element. -/
+/-! #### DOUBT (open): the default offset of `<pIndex>`
+
+What a `<pIndex>` WITHOUT `Offset` / `pOffset` contributes to a register address is
+transcribed from the code (`elem_type.rs`: index × 1), NOT settled independently: an
+independent recollection says GenApi uses the register's *Length* as the default offset
+(register arrays: element `i` of an array of 4-byte registers lives at base + 4·i), and
+the text of the standard is not available offline.  The reading is the one definition
+`pIndexDefaultOffset` below; flipping it to `.registerLength` makes the reference semantics
+certify the other reading, and then `effectiveAddrs_eq` (Proofs/C03Spec.lean) — and with
+it the refinement theorems — fail, because the code does not do that.  The harness
+oracle has the same switch (`PINDEX_DEFAULT_OFFSET`) and counts in every run on how many
+register address evaluations the two readings differ. -/
+
+inductive PIndexDefaultOffset where
+  | one
+  | registerLength
+
+/-- the reading certified here — a one-line flip -/
+def pIndexDefaultOffset : PIndexDefaultOffset := .one
+
+/-- the address elements of a register with the default offset made explicit, under reading `r` -/
+def effectiveAddrsFor (r : PIndexDefaultOffset) (rb : RegBase) : List AddressKind :=
+  rb.addrs.map fun k =>
+    match k, r with
+    | .pIndex sel .none, .registerLength => .pIndex sel (some rb.length)
+    | k, _ => k
+
+/-- … under the reading certified here -/
+def effectiveAddrs (rb : RegBase) : List AddressKind := effectiveAddrsFor pIndexDefaultOffset rb
+
+/-- R4. One address element (a `pIndex` without offset — after `effectiveAddrs` — is the
+index itself). -/
 def addrElem (prev : ValSem F) (k : AddressKind) (s : S F) : Option Int :=
   match k with
   | .address a => immInt cx prev a s
@@ -396,7 +427,7 @@ def addrSum (prev : ValSem F) (ks : List AddressKind) (acc : Int) (s : S F) : Op
 address, read through a plain (non-chunk) port from the device image. -/
 def regBytes (prev : ValSem F) (rb : RegBase) (s : S F) : Option Bytes :=
   (immInt cx prev rb.length s).bind fun l =>
-  (addrSum cx prev rb.addrs 0 s).bind fun a =>
+  (addrSum cx prev (effectiveAddrs rb) 0 s).bind fun a =>
     if 0 ≤ l then
       match cx.graph rb.port with
       | some (.port _ false) => imageRead s.dev.mem a l.toNat
@@ -458,7 +489,7 @@ def specCurrentEntry (d : Nat) (n : NodeId) (s : S F) : Option NodeId :=
 def specRegAddress (d : Nat) (n : NodeId) (s : S F) : Option Int :=
   match cx.graph n with
   | some nd => match nd.regBase? with
-    | some rb => addrSum cx (valSem cx d) rb.addrs 0 s
+    | some rb => addrSum cx (valSem cx d) (effectiveAddrs rb) 0 s
     | .none => .none
   | .none => .none
 def specRegLength (d : Nat) (n : NodeId) (s : S F) : Option Int :=
@@ -548,7 +579,7 @@ bytes go to the effective address through a plain port. -/
 def regWriteBytes (pv : ValSem F) (rb : RegBase) (buf : Bytes) (s : S F) : Option (S F) :=
   (immInt cx pv rb.length s).bind fun l =>
     if 0 ≤ l ∧ buf.length = l.toNat then
-      (addrSum cx pv rb.addrs 0 s).bind fun a =>
+      (addrSum cx pv (effectiveAddrs rb) 0 s).bind fun a =>
         match cx.graph rb.port with
         | some (.port _ false) => (imageWrite s.dev a buf).map fun d => { s with dev := d }
         | _ => .none
